@@ -331,3 +331,71 @@ Print Assumptions C13_filter_one_unfixed_spins_iff.
 Theorem C13_filter_one_unfixed_refuted : exists lo hi a b, filter_one_unfixed lo hi a b = Spin.
 Proof. exact filter_one_unfixed_refuted. Qed.
 Print Assumptions C13_filter_one_unfixed_refuted.
+
+Require Import Verif.Check.C13_check Verif.Proofs.JudgeSoundC13P Verif.Proofs.JudgeSoundC06P.
+(* ---- the executable properties of Check/C13_check.v are the property (judge soundness) ---- *)
+(* Sinks C13_commit / C13_exec / C13_reader_*: the case output is the callback's termination code (0 returned, 2 panicked,
+   3 did not return before the watchdog); there is no model of the callbacks, the "model" is the constant 0. *)
+Theorem C13_judge_sweep_model_passes : forall i, sweep_ok i (sweep_model i) = true.
+Proof. exact sweep_model_passes. Qed.
+Print Assumptions C13_judge_sweep_model_passes.
+Theorem C13_judge_sweep_sound : forall i o, sweep_ok i o = true -> o = 0%N /\ o <> 2%N /\ o <> 3%N.
+Proof. exact sweep_sound. Qed.
+Print Assumptions C13_judge_sweep_sound.
+
+(* Sinks C13_sites_*: the output is res_code of what the real (guard, use) pair did (0 value, 1 error, 2 panic, 3 no
+   return).  The site's model passes under exactly the hypotheses of the never-panics theorems of section 7 (7.2 / 7.5
+   index >= 0, 7.4 both integers non-nil, 7.6 a byte string shorter than 2^64) — the harness passes only such inputs. *)
+Theorem C13_judge_site_model_passes : forall i,
+  match i with
+  | SCheckMsg idx _ _ => (0 <= idx)%Z
+  | SDeviates x1 x2 _ => x1 <> None /\ x2 <> None
+  | SAppend idx _ => (0 <= idx)%Z
+  | SKeepRight len _ => (N.of_nat len < two64)%N
+  | _ => True
+  end ->
+  site_ok i (site_model i) = true.
+Proof. exact site_model_passes. Qed.
+Print Assumptions C13_judge_site_model_passes.
+(* a code that passes is the code of a result that is no crash — the predicate of every C13_*_never_panics theorem *)
+Theorem C13_judge_site_sound : forall i o, site_ok i o = true ->
+  (o = 0%N \/ o = 1%N) /\ forall (A : Type) (r : res A), res_code r = o -> no_crash r.
+Proof. exact site_sound. Qed.
+Print Assumptions C13_judge_site_sound.
+Theorem C13_judge_site_example :
+  site_ok (SCheckMsg 1 2 1) 1%N = true /\ site_model (SCheckMsg 1 2 1) = 1%N /\
+  site_ok (SKeepRight 20 33) 0%N = true /\ site_model (SKeepRight 20 33) = 0%N /\
+  site_ok (SDeviates (Some 5%Z) (Some 0%Z) 10000000) (site_model (SDeviates (Some 5%Z) (Some 0%Z) 10000000)) = true /\
+  site_ok (SRoot32 31) 2%N = false.
+Proof. exact site_ok_example. Qed.
+Print Assumptions C13_judge_site_example.
+
+(* Sink C06_sweep, judged by C06's judge re-exported: the statements of Props/C06.v (C06_judge_c06_model_passes,
+   C06_judge_c06_sound; [c06_P i x] is the conclusion spelled out there), and the clause that is C13's — the call
+   returned (kind 10 = watchdog) and not by a recovered panic (kind 9): C13_rmn_never_panics /
+   C13_rmn_returns_by_deadline read on an arbitrary output. *)
+Theorem C13_judge_c06_model_passes : forall i o,
+  NoDup (map Rmn.sg_node (Rmn.c_signers (i_cfg i))) /\ NoDup (map Rmn.sg_addr (Rmn.c_signers (i_cfg i))) /\
+  NoDup (map Rmn.hn_id (Rmn.c_nodes (i_cfg i))) ->
+  c06_oeqb (c06_model i) o = true ->
+  (forall x, o = [x] -> o_kind x <> 10%N) ->
+  c06_ok i o = true.
+Proof. exact c06_model_passes. Qed.
+Print Assumptions C13_judge_c06_model_passes.
+Theorem C13_judge_c06_sound : forall i o, c06_ok i o = true -> exists x, o = [x] /\ c06_P i x.
+Proof. exact c06_sound. Qed.
+Print Assumptions C13_judge_c06_sound.
+Theorem C13_judge_c06_no_panic_no_hang : forall i o,
+  c06_ok i o = true -> exists x, o = [x] /\ o_kind x <> 9%N /\ o_kind x <> 10%N.
+Proof. exact c06_sound_no_panic_no_hang. Qed.
+Print Assumptions C13_judge_c06_no_panic_no_hang.
+
+(* Borrowed parts (judges p_*: no model, verdict 2 exactly for the outputs on which [bad] holds): an empty verdict list
+   means no recorded output is bad; for res-valued outputs ([bad] = res_bad) that is no_crash of every output. *)
+Theorem C13_judge_panic_only_sound : forall (I O : Type) (bad : O -> bool) (cs : list (I * O)) k,
+  pj_from bad k cs = [] <-> Forall (fun c => bad (snd c) = false) cs.
+Proof. exact @pj_from_sound. Qed.
+Print Assumptions C13_judge_panic_only_sound.
+Theorem C13_judge_res_bad_is_crash : forall (A : Type) (r : res A), res_bad r = false <-> no_crash r.
+Proof. exact @res_bad_no_crash. Qed.
+Print Assumptions C13_judge_res_bad_is_crash.
